@@ -473,3 +473,61 @@ theorem score_addAll_spec (times : List Int) {s : Score} (h : ScInv s) :
     rfl
 
 end Sc3Verif.C09
+
+namespace Sc3Verif.C09
+
+/-! ### Ppar -/
+
+theorem pparLoop_refines (fuel : Nat) (s : PparSt) (h : Inv s.q) :
+    pparLoop fuel s = pparLoopS s.rem s.now fuel s.q.abs := by
+  induction fuel generalizing s with
+  | zero => rfl
+  | succ fuel ih =>
+    obtain ⟨h1, h2, h3⟩ := pop_spec h
+    unfold pparLoop pparLoopS
+    rw [empty_spec h]
+    cases hq : s.q.abs with
+    | nil => simp
+    | cons y tail =>
+      rw [h1, hq]
+      simp only [List.isEmpty_cons, Bool.false_eq_true, if_false, List.head?_cons, List.tail_cons]
+      cases hrem : s.rem.getD y.2 [] with
+      | nil =>
+        simp only []
+        rw [empty_spec h3, peekSmallest_spec, h2, hq]
+        simp only [List.tail_cons]
+        cases tail with
+        | nil => simp
+        | cons z tl =>
+          simp only [List.isEmpty_cons, Bool.false_eq_true, if_false]
+          have := ih { s with q := s.q.pop.1, now := peekTime (z :: tl).head? s.now } h3
+          simp only [h2, hq, List.tail_cons] at this
+          rw [this]
+      | cons d rest =>
+        simp only []
+        have hinv := inv_add h3 (s.now + d) y.2
+        have habs := abs_add h3 (s.now + d) y.2
+        rw [h2, hq] at habs
+        simp only [List.tail_cons] at habs
+        rw [peekSmallest_spec, habs]
+        have := ih { q := s.q.pop.1.add (s.now + d) y.2, rem := s.rem.set y.2 rest,
+                     now := peekTime (SQ.insert (s.now + d) y.2 (SQ.erase y.2 tail)).head? s.now } hinv
+        simp only [habs] at this
+        rw [this]
+
+theorem pparInit_refines (n : Nat) : (pparInitQ n).abs = pparInitS n ∧ Inv (pparInitQ n) := by
+  unfold pparInitQ pparInitS
+  generalize List.range n = l
+  have : ∀ (q : TQ), Inv q → (l.foldl (fun q c => q.add 0 c) q).abs
+      = l.foldl (fun s c => SQ.insert 0 c (SQ.erase c s)) q.abs ∧ Inv (l.foldl (fun q c => q.add 0 c) q) := by
+    induction l with
+    | nil => intro q hq; exact ⟨rfl, hq⟩
+    | cons c l ih =>
+      intro q hq
+      simp only [List.foldl_cons]
+      obtain ⟨i1, i2⟩ := ih (q.add 0 c) (inv_add hq 0 c)
+      rw [i1, abs_add hq]
+      exact ⟨rfl, i2⟩
+  exact this TQ.init inv_init
+
+end Sc3Verif.C09
